@@ -1,6 +1,7 @@
 package props
 
 import (
+	"github.com/deepteams/webp/mux"
 	"bytes"
 	"io"
 	"strings"
@@ -30,6 +31,14 @@ type c11Op struct {
 	Name string
 	Seq  *gen.AnimSeq
 	Lossless, Mixed bool
+	Mux  []c11MuxFrame // mux: frames handed to a Muxer, assembled, and read back through a Demuxer
+	MuxMeta []byte
+}
+
+type c11MuxFrame struct {
+	Entry           int // index into C14's bitstream pool
+	X, Y, Dur       int
+	NoBlend, Dispose bool
 }
 
 type c11Case struct{ Ops []c11Op }
@@ -54,7 +63,7 @@ func genC11(t *rapid.T) *c11Case {
 	// handled another such stream of the same or a larger size
 	focus := rapid.SampledFrom([]string{"", "", "", "", "", "", "", "", "vp8", "vp8l"}).Draw(t, "focus")
 	for i := 0; i < n; i++ {
-		op := c11Op{Kind: rapid.SampledFrom([]string{"enc", "enc", "enc", "enc", "dec", "dec", "cfg", "animenc", "animdec"}).Draw(t, "op")}
+		op := c11Op{Kind: rapid.SampledFrom([]string{"enc", "enc", "enc", "enc", "dec", "dec", "cfg", "animenc", "animdec", "mux"}).Draw(t, "op")}
 		if focus != "" && rapid.IntRange(0, 4).Draw(t, "focusOp") != 0 {
 			op.Kind = "dec"
 			d := sz[rapid.IntRange(0, len(sz)-1).Draw(t, "fszi")]
@@ -120,6 +129,15 @@ func genC11(t *rapid.T) *c11Case {
 				b[p] ^= 1 << uint(rapid.IntRange(0, 7).Draw(t, "flipBit"))
 				op.File = b
 				op.Name += "/flip"
+			}
+		case "mux":
+			bp := bitstreamPool()
+			for k := rapid.IntRange(1, 4).Draw(t, "muxFrames"); k > 0; k-- {
+				op.Mux = append(op.Mux, c11MuxFrame{Entry: rapid.IntRange(0, len(bp)-1).Draw(t, "muxBs"), X: 2 * rapid.IntRange(0, 4).Draw(t, "mx"), Y: 2 * rapid.IntRange(0, 4).Draw(t, "my"),
+					Dur: rapid.IntRange(0, 90).Draw(t, "mdur"), NoBlend: rapid.Bool().Draw(t, "mnb"), Dispose: rapid.Bool().Draw(t, "mdisp")})
+			}
+			if rapid.Bool().Draw(t, "muxMeta") {
+				op.MuxMeta, _ = gen.DrawBlob(t, "muxBlob", 40)
 			}
 		case "animenc":
 			op.Seq = gen.DrawAnimSeq(t, 20, 4, 1, []string{"opaque", "binary", "levels"})
@@ -205,6 +223,59 @@ func runC11Op(op *c11Op) *c11Result {
 		cfg, err := webp.DecodeConfig(bytes.NewReader(op.File))
 		ft, err2 := webp.GetFeatures(bytes.NewReader(op.File))
 		r.Digest = fmt.Sprintf("%v %dx%d %p | %v %+v", err, cfg.Width, cfg.Height, cfg.ColorModel, err2, ft)
+	case "mux":
+		bp := bitstreamPool()
+		m := mux.NewMuxer()
+		for _, f := range op.Mux {
+			e := bp[f.Entry%len(bp)]
+			data := e.Bitstream
+			if e.Alph != nil {
+				pre := append([]byte("ALPH"), byte(len(e.Alph)), byte(len(e.Alph)>>8), byte(len(e.Alph)>>16), 0)
+				pre = append(pre, e.Alph...)
+				if len(e.Alph)&1 == 1 {
+					pre = append(pre, 0)
+				}
+				data = append(pre, e.Bitstream...)
+			}
+			fo := &mux.FrameOptions{Duration: f.Dur, OffsetX: f.X, OffsetY: f.Y}
+			if f.NoBlend {
+				fo.BlendMode = mux.BlendNone
+			}
+			if f.Dispose {
+				fo.DisposeMode = mux.DisposeBackground
+			}
+			r.keep(data)
+			if err := m.AddFrame(data, fo); err != nil {
+				r.Digest += "addframe-err:" + err.Error() + ";"
+			}
+		}
+		if len(op.MuxMeta) > 0 {
+			m.SetEXIF(op.MuxMeta)
+			r.keep(op.MuxMeta)
+		}
+		var buf bytes.Buffer
+		if err := m.Assemble(&buf); err != nil {
+			r.Digest += "assemble-err:" + err.Error()
+			break
+		}
+		out := buf.Bytes()
+		r.keep(out)
+		r.Digest += fmt.Sprintf("mux %d %x", len(out), sha256.Sum256(out))
+		if d, err := mux.NewDemuxer(out); err != nil {
+			r.Digest += " demux-err:" + err.Error()
+		} else {
+			h := sha256.New()
+			for i := 0; i < d.NumFrames(); i++ {
+				if fr, err := d.Frame(i); err == nil && fr != nil {
+					fmt.Fprintf(h, "%d,%d,%d,%d,%d,%v,%v|", fr.OffsetX, fr.OffsetY, fr.Width, fr.Height, fr.Duration, fr.BlendMode, fr.DisposeMode)
+					h.Write(fr.Data)
+					h.Write(fr.AlphaData)
+				} else {
+					fmt.Fprintf(h, "frame-err %v|", err)
+				}
+			}
+			r.Digest += fmt.Sprintf(" demux %d %+v loop%d %x", d.NumFrames(), d.GetFeatures(), d.LoopCount(), h.Sum(nil))
+		}
 	case "animenc":
 		imgs, durs := seqImages(op.Seq)
 		out, err := animEncode(op.Seq.CW, op.Seq.CH, imgs, durs, &animation.EncodeOptions{Lossless: op.Lossless, AllowMixed: op.Mixed, Quality: 70, Kmin: op.Seq.Kmin, Kmax: op.Seq.Kmax}, nil, nil, nil, false)
@@ -307,6 +378,17 @@ func checkC11(c *c11Case, o *core.Obs) error {
 		o.Label("poolhit=" + n)
 	}
 	o.Labelf("ops=%d", bucket(len(c.Ops)))
+	seenKind := map[string]bool{}
+	for i := range c.Ops {
+		k := c.Ops[i].Kind
+		if k == "dec" && (strings.HasPrefix(c.Ops[i].Name, "vp8gen") || strings.HasPrefix(c.Ops[i].Name, "vp8lgen")) {
+			k = "dec-generated"
+		}
+		if !seenKind[k] {
+			seenKind[k] = true
+			o.Label("history_has=" + k)
+		}
+	}
 	o.SampleJSON = map[string]any{"ops": opList(c), "pool_hits": hits}
 	if total > 0 {
 		o.NonTrivial("%s|%v", pairs, len(hits))
@@ -327,6 +409,8 @@ func opDesc(op *c11Op) string {
 		return fmt.Sprintf("%dx%d %s/%s lossless=%v m%d q%v", op.Img.W, op.Img.H, op.Img.Content, op.Img.Alpha, op.Opts.Lossless, op.Opts.Method, op.Opts.Quality())
 	case "dec", "cfg", "animdec":
 		return op.Name
+	case "mux":
+		return fmt.Sprintf("%d frames meta=%d", len(op.Mux), len(op.MuxMeta))
 	default:
 		return fmt.Sprintf("%dx%d x%d lossless=%v mixed=%v", op.Seq.CW, op.Seq.CH, len(op.Seq.Frames), op.Lossless, op.Mixed)
 	}
